@@ -68,6 +68,11 @@ def extract():
                     m = 'arange3'
                 elif isinstance(v, ast.BinOp) and isinstance(v.op, ast.Div) and _is_np(v.left, 'arange') and len(v.left.args) == 1:
                     m = 'arange1_div'
+                elif _is_np(v, 'linspace') and len(v.args) == 3 and any(k.arg == 'endpoint' and isinstance(k.value, ast.Constant)
+                                                                         and k.value.value is False for k in v.keywords):
+                    m = 'linspace'
+                elif _mentions(v, {'fs'}):
+                    m = 'unknown'       # some other construction of a time axis from fs: not understood
                 if m is not None:
                     models[node.targets[0].id] = m
                     out.append(dict(path=path, func=fname, line=node.lineno, kind='times:' + m, src=ast.unparse(v)))
@@ -154,8 +159,10 @@ def translate(node, env, fp):
     raise NotUnderstood('cannot translate %r' % key)
 
 
-def elem(model, i_fp, fs_fp, fp):
+def elem(model, i_fp, fs_fp, fp, n_fp=None):
     """value of element i of the time axis."""
+    if model == 'linspace':         # np.linspace(0, n/fs, n, endpoint=False)[i] = i * ((n/fs) / n)
+        return fp.bin(ast.Mult, i_fp, fp.bin(ast.Div, fp.bin(ast.Div, n_fp, fs_fp), n_fp))
     if model == 'arange3':          # np.arange(0, n/fs, 1/fs)[i] = 0 + i * (1/fs)
         return fp.bin(ast.Mult, i_fp, fp.bin(ast.Div, fp.val(1.0), fs_fp))
     if model == 'arange1_div':      # (np.arange(n) / fs)[i] = i / fs
@@ -188,10 +195,12 @@ def same_integers(op, rhs, k_fp, fp):
     return z3.And(z3.fpLEQ(k_fp, rhs), z3.fpLT(rhs, hi))     # Gt, LtE: k <= rhs < k+1
 
 
-def obligations(kernel, fs, a_bv, fp):
-    """-> list of (z3 Bool that must hold, description) for index ``a`` (BitVec) and rate fs."""
+def obligations(kernel, fs, a_bv, fp, n_bv=None):
+    """-> list of (z3 Bool that must hold, description) for index ``a`` (BitVec) and rate fs
+    (``n_bv``: signal length, only needed for time axes whose elements depend on it)."""
     z3 = fp.z3
     a = fp.of_bv(a_bv)
+    nf = fp.of_bv(n_bv) if n_bv is not None else None
     fsv = fp.val(fs)
     kind = kernel['kind']
     node = ast.parse(kernel['src'], mode='eval').body
@@ -206,20 +215,22 @@ def obligations(kernel, fs, a_bv, fp):
         out.append((z3.And(z3.fpLT(fp.bin(ast.Sub, a, fp.val(1.0)), q), z3.fpLEQ(q, a)),
                     'time axis has exactly one entry per sample'))
         return out
-    if kind == 'times:arange1_div':
-        return out          # np.arange(n) / fs: exact length by construction
+    if kind in ('times:arange1_div', 'times:linspace'):
+        return out          # exact length by construction
+    if kind == 'times:unknown':
+        raise NotUnderstood('time axis built by %s' % kernel['src'])
     models = kernel.get('times_models') or ['arange3']
     if kind == 'offset':
         for m in models:
             env = {'fs': fsv, 'start': grid, 'stop': grid, 'xlim[0]': grid, 'xlim[1]': grid,
-                   'times[0]': elem(m, a, fsv, fp), 'times[-1]': elem(m, a, fsv, fp)}
+                   'times[0]': elem(m, a, fsv, fp, nf), 'times[-1]': elem(m, a, fsv, fp, nf)}
             out.append((int_like(node, env, fp, a), 'sample offset equals the index of the limit (%s time axis)' % m))
         return out
     if kind == 'index_cmp':
         rhs_node = node.comparators[0]
         for m in models:
             env = {'fs': fsv, 'start': grid, 'stop': grid, 'xlim[0]': grid, 'xlim[1]': grid,
-                   'times[0]': elem(m, a, fsv, fp), 'times[-1]': elem(m, a, fsv, fp)}
+                   'times[0]': elem(m, a, fsv, fp, nf), 'times[-1]': elem(m, a, fsv, fp, nf)}
             rhs = translate(rhs_node, env, fp)
             out.append((same_integers(kernel['op'], rhs, a, fp),
                         'comparison selects the same samples as the exact limit (%s time axis)' % m))
@@ -228,7 +239,7 @@ def obligations(kernel, fs, a_bv, fp):
         op = kernel['op']
         am1 = fp.bin(ast.Sub, a, fp.val(1.0))
         for m in models:
-            ta, tb = elem(m, a, fsv, fp), elem(m, am1, fsv, fp)
+            ta, tb = elem(m, a, fsv, fp, nf), elem(m, am1, fsv, fp, nf)
             cmpf = {'GtE': z3.fpGEQ, 'Gt': z3.fpGT, 'LtE': z3.fpLEQ, 'Lt': z3.fpLT}[op]
             want_a = op in ('GtE', 'LtE')       # times[a] op a/fs  as for exact reals
             want_b = op in ('Lt', 'LtE')        # times[a-1] op a/fs
@@ -249,7 +260,7 @@ def configs(tier):
         return [{'fn': 'fp', 'kernel': None, 'error': str(e)}]
     top = 14 if tier == 'quick' else 20
     for i, k in enumerate(kernels):
-        if k['kind'] == 'times:arange1_div':
+        if k['kind'] in ('times:arange1_div', 'times:linspace'):
             out.append({'fn': 'fp', 'kernel': i, 'id': k['id'], 'fs': 1000.0, 'k': 0, 'exact': True})
             continue
         for fs in (FS_QUICK if tier == 'quick' else FS_THOROUGH):
@@ -268,7 +279,7 @@ def check(ctx, cfg):
     if kern['id'] != cfg['id']:
         raise symx.ModelGap('kernel list changed during the run')
     if cfg.get('exact'):
-        ctx.prove(True, 'time axis np.arange(n) / fs has one entry per sample by construction')
+        ctx.prove(True, 'time axis has one entry per sample by construction')
         return
     fp = FP()
     z3 = fp.z3
@@ -277,8 +288,12 @@ def check(ctx, cfg):
     a = E._declare('a', lambda n: z3.BitVec(n, 21))
     lo, hi = 1 << cfg['k'], 1 << (cfg['k'] + 1)
     E.solver.add(z3.UGE(a, lo), z3.ULT(a, hi))
+    n_bv = None
+    if 'linspace' in (kern.get('times_models') or []):
+        n_bv = E._declare('n', lambda nm: z3.BitVec(nm, 21))      # signal length: index < n < 4 * 2^k
+        E.solver.add(z3.UGT(n_bv, a), z3.ULT(n_bv, min(hi * 4, (1 << 21) - 1)))
     try:
-        obl = obligations(kern, cfg['fs'], a, fp)
+        obl = obligations(kern, cfg['fs'], a, fp, n_bv)
     except NotUnderstood as e:
         raise symx.ModelGap('floating-point kernel %s not understood: %s' % (kern['id'], e))
     for cond, what in obl:
@@ -306,6 +321,9 @@ def replay(ctx, cfg):
     def times_elem(m, i):
         if m == 'arange3':
             return np.arange(0, (i + 2) / fs, 1 / fs)[i]
+        if m == 'linspace':
+            n = ctx.integer('n')
+            return np.linspace(0, n / fs, n, endpoint=False)[i]
         return (np.arange(i + 2) / fs)[i]
     if kind == 'times:arange3':
         name = ast.unparse(node.args[1].left)          # e.g. len(sig)
